@@ -50,6 +50,7 @@ def check(ctx):
     ctx.attempt(lockdown, ctx.repo.func('PLSSDesc.parse'), only=('sec_colon_required', 'sec_colon_cautious', 'segment', 'sec_within', 'layout'))
     ctx.attempt(_staging_tables)
     ctx.attempt(common.config_words, plss=('sec_colon_required', 'sec_colon_cautious', 'segment', 'sec_within'))
+    ctx.attempt(common.match_record_roles)
 
 
 def _colon(ctx):
